@@ -743,6 +743,21 @@ def oracle_run(ctx, case, run, ret, n_steps, sim_type, held0, keyprefix="search"
                 if abs(u - thr) > 1e-12 * max(abs(thr), 1e-300) and (u <= thr) != st.accepted:
                     fail("uphill-decision", {"step": k, "u": u, "threshold": thr, "accepted": st.accepted})
             ctx.count("branch:uphill-" + ("accepted" if st.accepted else "rejected"))
+        # the measure the loop used for this proposal IS the overlap measure of that configuration: a calculator built
+        # afresh from the same fixed coordinates and restraints gives the same number (sampled: every ~1/8 of the run;
+        # seed C09-8: a calculator whose "covered atoms" set only grows makes the search's energies history dependent)
+        if report and k % max(1, len(run.steps) // 8) == 0 and run.fixed is not None and run.mobile0_obj is not None:
+            try:
+                import gaddlemaps._backend as _B
+                with np.errstate(all="ignore"):
+                    fresh = float(_B.Chi2Calculator(np.array(run.fixed, dtype=float), np.array(run.mobile0_obj, dtype=float),
+                                                    run.restr)(np.array(st.test_snap, dtype=float)))
+                used = float(st.chi2_new)
+                ctx.count("fresh-calculator-cross-checks")
+                if not (math.isnan(fresh) and math.isnan(used)) and abs(fresh - used) > 1e-9 * max(1.0, abs(fresh)):
+                    fail("measure-differs-from-a-fresh-calculator", {"step": k, "used": used, "fresh": fresh})
+            except Exception:   # noqa: BLE001  (malformed restraint lists etc.: the case's own error is reported elsewhere)
+                pass
         # the proposal
         if st.change not in sim_type:
             fail("kind-not-enabled", {"step": k, "kind": st.change})
